@@ -81,7 +81,9 @@ def run(chk, tier):
     import sizeofrule
     nso = sizeofrule.run(chk, P, list(P.units))
     chk.floor("R-SIZEOF", "typed block operations", nso, 40)
-    chk.decided += ['no local allocation of the duplication code is dropped on a path to a return',
+    chk.decided += ['typed block copies measure the object they copy (sizeof consistency)',
+                    'per-slot loops over fixed-size array fields cover every slot',
+                    'no local allocation of the duplication code is dropped on a path to a return',
                     'a copy records for each heap array the capacity it was actually allocated with',
                     "the duplication functions' failure paths release each allocation once (no use after release)",
                     "nothing is forgotten: every field of topology/object/distances/memattr/cpukind/infos records is set on the copy",
